@@ -49,6 +49,7 @@ import GraphiqModel.Proofs.LCSeqTerm
 import GraphiqModel.Proofs.LCRepair
 import GraphiqModel.Proofs.LCAssemble
 import GraphiqModel.Proofs.LCTotalR
+import GraphiqModel.Proofs.LCGates2
 namespace Graphiq.C09
 open Graphiq Graphiq.LC Graphiq.PRow Graphiq.Tab
 
@@ -812,5 +813,62 @@ theorem find_lc_operations_returns_iff_yes (a b : BMat) (mode : Mode) (draws : L
     cases hq : out.sol with
     | none => rw [hq] at hseq; cases hseq
     | some q => rfl
+
+/-! ## 7. The gates, unconditionally: no appeal to the validation inside `lc_check`
+
+  Section 4 covers the *checked* path (`lc_check_gates_map_the_state`: if the validation passes, the gates are right).  Here
+  the validation is proved to pass, and `_phase_correction` (modelled at specification level: the `Z` gates on the qubits whose
+  generator carries the sign `−`) is proved to fix every sign: for **every** valid `Q` the gate list maps `|A⟩` exactly onto
+  `|B⟩`.  Helper lemmas: Proofs/LCGates.lean, Proofs/LCGates2.lean (on top of the group-level semantics of C07). -/
+
+/-- **the gates of any valid local Clifford map the first graph state onto the second up to signs**: running the gates that
+    `local_clifford_ops(Q)` names (each block's word, rightmost factor first) on the graph-state tableau of `A` never fails,
+    gives a valid tableau with Hermitian stabilizers, and `K_k(B)` or `−K_k(B)` lies in its stabilizer group for every `k` —
+    because the symplectic product of `K_k(B)` with the image of `K_i(A)` *is* equation `(i, k)` of the linear system -/
+theorem gates_of_a_valid_clifford_map_the_state_up_to_signs (n : Nat) (A B : Adj) (hA : Simple n A) (hB : Simple n B)
+    (q : List Bool) (hq : ∀ j k, j < n → k < n → equation n A B (vget q) j k = false) (hv : isValidClifford n q = true) :
+    ∃ t, runGates (graphTab n A) (qGates n q) = .ok t ∧ t.n = n ∧ t.Valid ∧ t.StabReal ∧
+      ∀ k, k < n → TabSpec.Grp t (graphGen B k) ∨ TabSpec.Grp t (TabSpec.negate (graphGen B k)) :=
+  gates_map_state_up_to_signs n A B hA hB q hq hv
+
+/-- **… and with the phase correction exactly**: the signs are all found, the `Z` corrections are the phase correction, the
+    total gate list runs, and the resulting tableau is the graph state of `B` with every sign `+` (`isGraphState`, i.e. every
+    `+K_k(B)` is in the stabilizer group: `lc_check_gates_map_the_state`) -/
+theorem gates_with_phase_correction_map_the_state (n : Nat) (A B : Adj) (hA : Simple n A) (hB : Simple n B)
+    (q : List Bool) (hq : ∀ j k, j < n → k < n → equation n A B (vget q) j k = false) (hv : isValidClifford n q = true) :
+    ∃ t1 zs t2, runGates (graphTab n A) (qGates n q) = .ok t1 ∧ phaseCorrection t1 B = some zs ∧
+      runGates (graphTab n A) (qGates n q ++ zs) = .ok t2 ∧ isGraphState t2 B = true :=
+  converter_core n A B hA hB q hq hv
+
+/-- **`lc_check` is total and agrees with `is_lc_equivalent`, with or without validation** (repaired function): on simple
+    graphs of equal size it returns `(True, gates)` exactly when `is_lc_equivalent` says yes — the assertion of
+    `converter_gate_list`, the warning of the validation and every exception are excluded — and `(False, [])` otherwise; after a
+    `yes` the gates are those of the returned `Q` followed by `Z` corrections, and they transform the graph state of `A`
+    exactly into the graph state of `B` -/
+theorem lc_check_total_and_right (a b : BMat) (validate : Bool) (hab : a.r = b.r) (ha : Simple a.r a.f)
+    (hb : Simple b.r b.f) :
+    ∃ out, isLcEquivalentR a b .det [] = .ok out ∧
+      ((out.sol = none ∧ lcCheckR a b validate = .ok (false, [])) ∨
+       (∃ s zs, out.sol = some s ∧ lcCheckR a b validate = .ok (true, qGates a.r s ++ zs) ∧
+          ∃ t, runGates (graphTab a.r a.f) (qGates a.r s ++ zs) = .ok t ∧ t.n = a.r ∧ t.Valid ∧
+            ∀ k, k < a.r → InSpan t.n t.n t.stab (graphGen b.f k))) := by
+  obtain ⟨out, e⟩ := is_lc_equivalent_total a b .det [] hab ha (by decide)
+  refine ⟨out, e, ?_⟩
+  cases hs : out.sol with
+  | none => exact Or.inl ⟨rfl, lcCheckR_of_no a b out e hs validate⟩
+  | some s =>
+    obtain ⟨zs, _, hc⟩ := lcCheckR_of_yes a b out s hab ha hb e hs
+    refine Or.inr ⟨s, zs, rfl, hc validate, ?_⟩
+    exact lc_check_gates_map_the_state_repaired a b _ ha (hc true)
+
+/-- the same for the whole-graph algorithm (`lc_check` before the repair of D14) -/
+theorem lc_check_total_and_right_unrepaired (a b : BMat) (validate : Bool) (hn : 0 < a.r) (hab : a.r = b.r)
+    (ha : Simple a.r a.f) (hb : Simple b.r b.f) (out : EqOut) (s : List Bool)
+    (e : isLcEquivalent a b .det [] = .ok out) (hs : out.sol = some s) :
+    ∃ zs, lcCheck a b validate = .ok (true, qGates a.r s ++ zs) ∧
+      ∃ t, runGates (graphTab a.r a.f) (qGates a.r s ++ zs) = .ok t ∧ t.n = a.r ∧ t.Valid ∧
+        ∀ k, k < a.r → InSpan t.n t.n t.stab (graphGen b.f k) := by
+  obtain ⟨zs, _, hc⟩ := lcCheck_of_yes a b out s hn hab ha hb e hs
+  exact ⟨zs, hc validate, lc_check_gates_map_the_state a b _ ha (hc true)⟩
 
 end Graphiq.C09
